@@ -83,6 +83,48 @@ def h_inverse(L, ty, parts):
     return 'inverse'
 
 
+def h_inverse_built(L, ty, nn, nm):
+    """the inverse direction for builder-made PURLs (namespaces a parser never produces, e.g. ending in '/')"""
+    I = L.I
+    ns = L.sym_bytes('a', nn)
+    name = L.sym_bytes('b', nm)
+    L.assume_utf8(ns)
+    L.assume_utf8(name)
+    req = {'op': 'build_typed', 'T': 'Purl', 'type': SymStr(list(ty.encode())), 'name': SymStr(name), 'steps': [['with_namespace', SymStr(ns)]]}
+    L.expect_native(req, {})
+    try:
+        b = b_new(I, 'Purl', mk_type(I, 'Purl', list(ty.encode())), name)
+        b = b_call(I, 'Purl', b, 'with_namespace', ns)
+        r = b_build(I, 'Purl', b)
+        if r.variant == 'Err':
+            L.expect_native(req, {'err': err_name(r.fields[0])})
+            return 'rejected'
+        p = r.fields[0]
+        acc = accessors(I, 'Purl', p)
+        L.expect_native(req, {'ok': obs_expect(acc)})
+        if ty in ('golang', 'npm'):
+            if any(beq(I, x, 0x2F) for x in acc['name']):
+                return 'outside-side-condition'
+        elif ty == 'maven':
+            if acc['ns'] is not None and any(beq(I, x, 0x3A) for x in acc['ns']):
+                return 'outside-side-condition'
+        elif acc['ns'] is not None:
+            return 'outside-side-condition'
+        cn = I.call('GenericPurl::<package_type::PackageType>::combined_name', [Ref([p], 0)])
+        b2 = I.call('GenericPurl::<package_type::PackageType>::builder_with_combined_name::<&str>', [mk_type(I, 'Purl', list(ty.encode())), RStr(list(sbytes(cn)))])
+    except Panic as e:
+        L.fail('panic: %s' % e.msg)
+        return 'panic'
+    ns2, name2 = list(b2.fields[1].fields[0].b), list(b2.fields[1].fields[1].b)
+    ns1 = acc['ns'] or []
+    if len(ns1) != len(ns2) or len(name2) != len(acc['name']):
+        L.fail('%s: combined_name() fed back through the constructor gives a different namespace / name' % ty)
+        return 'inverse'
+    L.check('%s: namespace reproduced' % ty, bytes_eq_term(ns1, ns2))
+    L.check('%s: name reproduced' % ty, bytes_eq_term(acc['name'], name2))
+    return 'inverse'
+
+
 def queries(tier):
     deep = 1 if tier == 'thorough' else 0      # the former thorough bounds are the quick bounds now
     th = True
@@ -93,6 +135,8 @@ def queries(tier):
         for n in lens(4 + deep, 1):
             qs.append(Query('inverse pkg:%s/⟦%d⟧' % (ty, n), h_inverse, {'ty': ty, 'parts': ['pkg:%s/' % ty, ('hole', 'h', n)]}, bound='typed PURL pkg:%s/⟦%d⟧' % (ty, n)))
             qs.append(Query('inverse pkg:%s/a/⟦%d⟧' % (ty, n), h_inverse, {'ty': ty, 'parts': ['pkg:%s/a/' % ty, ('hole', 'h', n)]}, bound='typed PURL pkg:%s/a/⟦%d⟧' % (ty, n)))
+        for nn, nm in ((1, 1), (2, 1), (3, 1), (2, 2)) + (((3, 2), (4, 1)) if deep else ()):
+            qs.append(Query('inverse built %s ns=⟦%d⟧ name=⟦%d⟧' % (ty, nn, nm), h_inverse_built, {'ty': ty, 'nn': nn, 'nm': nm}, bound='Purl::builder(%s, name of %d free bytes).with_namespace(%d free bytes)' % (ty, nm, nn)))
         qs.append(Query('inverse pkg:%s/⟦2⟧/⟦2⟧' % ty, h_inverse, {'ty': ty, 'parts': ['pkg:%s/' % ty, ('hole', 'h', 2), '/', ('hole', 'g', 2)]}, bound='namespace and name holes of 2 bytes'))
     return qs
 
